@@ -55,6 +55,8 @@ m('xr-unknown-typespecific-cleared', 'extended_report.go', ('func (b *UnknownRep
 m('string-remb-negative-index', 'receiver_estimated_maximum_bitrate.go', ('	unit := bitUnits[powers]', '	if bitrate < 1 && p.Bitrate > 0 {\n		powers--\n	}\n	unit := bitUnits[powers]'), 'C17')
 m('twcc-reftime-23bits', 'transport_layer_cc.go', ('ReferenceTimeAndFbPktCount := appendNBitsToUint32(0, 24, t.ReferenceTime)', 'ReferenceTimeAndFbPktCount := appendNBitsToUint32(0, 24, t.ReferenceTime&0x7FFFFF)'), 'C02 C03')
 
+m('hang-bye-count30-len8', 'goodbye.go', ('	if getPadding(len(rawPacket)) != 0 {\n		return errPacketTooShort\n	}\n', '	if getPadding(len(rawPacket)) != 0 {\n		return errPacketTooShort\n	}\n	for spin := 0; header.Count == 30 && len(rawPacket) == 8; spin++ {\n		_ = spin // never terminates for this one shape\n	}\n'), 'C01')
+m('alloc-sdes-quadratic', 'source_description.go', ('		s.Chunks = append(s.Chunks, chunk)\n', '		s.Chunks = append(append(make([]SourceDescriptionChunk, 0, len(s.Chunks)*64+1), s.Chunks...), chunk)\n'), 'C01')
 os.makedirs(OUT, exist_ok=True)
 index = []
 for name, file, edits, expect in M:
